@@ -1103,18 +1103,19 @@ func (c14Engine) Meta() core.Meta {
 		NonVacuous: []string{"warm_hit_served", "invalid_entry_rearmed", "failure_after_cache_writer_armed", "stdin_spooled_to_temp_file", "input_given_as_named_pipe", "option_value_with_bytes_that_are_not_utf8"},
 		Rule: "Each simulated run draws a history of 1-4 (thorough 1-6) gts invocations from its seed, built around one anchor invocation of one of the 19 " +
 			"cached subcommands with seeded options, positionals, input (corpus records, multi-record, FASTA, invalid second record, garbage tail, empty), " +
-			"stdin as pipe (seeded chunk schedule) or tty+path, stdout or -o, -F, and environment (cache dir ok / undefined / uncreatable / read-only, temp dir " +
-			"ok / missing): identical repeats, one-aspect variants, input edits, secondary-input edits, purge, unrelated commands; 45 % of the histories have the pair shape (a run that succeeds, then the same run with exactly one argument changed, permuted or added, or after an edit of the input or of the secondary file). Every step runs as a simulated " +
+			"stdin as pipe (seeded chunk schedule), redirected file at an offset or tty+path, inputs also as named pipes, option values also as byte strings that are not UTF-8, stdout or -o (names with many extensions), -F, and environment (cache dir ok / undefined / uncreatable / read-only / on a file system with N bytes of room, temp dir " +
+			"ok / missing / on a file system with N bytes of room): identical repeats, one-aspect variants, input edits, secondary-input edits, purge, unrelated commands; 45 % of the histories have the pair shape (a run that succeeds, then the same run with exactly one argument changed, permuted or added, or after an edit of the input or of the secondary file). Every step runs as a simulated " +
 			"process (real command code, real TryCache, real cmd/cache) on the shared simulated disk and is compared with the same argv + --no-cache on a " +
 			"pristine machine: stdout bytes, exit status, every user file. The history is then executed again with faults aimed by the first execution's " +
-			"trace: kill at an operation (torn write), EIO/ENOSPC/EACCES/ENOENT on a cache-dir or temp-dir operation, stdout accepting only B bytes; the faulted " +
+			"trace: kill at an operation (torn write), EIO/ENOSPC/EACCES/ENOENT on a cache-dir or temp-dir operation, stdout accepting only B bytes and then failing with ENOSPC, EIO or EPIPE (SIGPIPE unless ignored); the faulted " +
 			"step itself is never judged, every later fault-free step is. A case is one judged step; it is non-trivial when its state key is new.",
 		StateRule: "distinct (mode, subcommand, option-flag set, stdin mode, cache outcome {uncached, miss-armed, hit, armed-failed, killed} read off the event trace, exit status, sink, first fault fired)",
 		Assumptions: []string{
 			"the simulated os reproduces what the real binary sees (differential self-tests: ./check selftest simfs, ./check selftest fidelity)",
 			"stderr text, cache directory contents and leftover temp files are not part of the statement and are not compared",
-			"a step hit by an injected fault is never judged; steps after an I/O error on a write/create/close of a cache or temp file stay under the strict oracle, steps after an error on unlink/read/seek/listing are tallied as extended observations",
-			"concurrent gts processes racing on one entry are out of scope (the property quantifies over histories)",
+			"a step hit by an injected fault is never judged; every later step is, whatever the fault was",
+			"environments are the same for the cached and the reference run and are judged strictly",
+			"concurrent gts commands are explored for the cache library only (C13, concurrent parties)",
 		},
 		Real: []string{"every command function of cmd/gts incl. argument parsing via go-gts/flags", "cmd/gts TryCache, ioDelegate, attachment, encodePayload", "cmd/cache",
 			"seqio, gts, pars, wrap, ascii, flip", "compress/flate, crypto/sha1, encoding/json, bufio"},
